@@ -351,15 +351,25 @@ func urange(t *Term) (lo, hi uint64, ok bool) {
 			return l1 + l2, h1 + h2, true
 		}
 	case opBvOr:
-		_, h1, ok1 := urange(t.args[0])
-		_, h2, ok2 := urange(t.args[1])
+		l1, h1, ok1 := urange(t.args[0])
+		l2, h2, ok2 := urange(t.args[1])
 		if ok1 && ok2 {
-			// upper bound: all bits below the highest set bit of either bound
+			// upper bound: all bits below the highest set bit of either bound; lower bound: x|y >= max(x, y)
 			m := h1 | h2
 			for sh := uint(1); sh < 64; sh <<= 1 {
 				m |= m >> sh
 			}
-			return 0, m, true
+			lo := l1
+			if l2 > lo {
+				lo = l2
+			}
+			return lo, m, true
+		}
+		if ok1 && t.args[0].isConst() {
+			return l1, mask(t.sort), true
+		}
+		if ok2 && t.args[1].isConst() {
+			return l2, mask(t.sort), true
 		}
 	}
 	return 0, 0, false
